@@ -292,3 +292,16 @@ Proof.
   - simpl in G. apply andb_true_iff in G. destruct G as [G1 G2]. apply memb_In in G1. apply memb_In in G2.
     apply (disconnect_acyclic h g p c cl h' g' W G1 G2 E AC).
 Qed.
+
+(* every state reached from an acyclic well-formed graph by operations applied inside their
+   domains, none of which closes a cycle, is well-formed and acyclic *)
+Theorem ops_preserve_acyclic : forall os s, WF (fst s) (snd s) -> acyclic (fst s) (snd s) ->
+  aguards_ok s os = true ->
+  exists s', run_ops s os = Ok s' /\ WF (fst s') (snd s') /\ acyclic (fst s') (snd s').
+Proof.
+  induction os as [|o t IH]; intros s W AC G; simpl.
+  - exists s. auto.
+  - simpl in G. repeat rewrite andb_true_iff in G. destruct G as [[G1 G2] G3].
+    destruct (op_preserves_WF s o W G1) as [s1 [E W1]]. rewrite E in *. simpl.
+    apply IH; [exact W1| |exact G3]. apply (op_preserves_acyclic s o s1 W G1 G2 AC E).
+Qed.
